@@ -193,7 +193,21 @@ class Endpoint:
         if using or using_named:
             raise ValueError("using-graph-uri is not supported by this endpoint")
         text = _alias_in(text)
-        upd = translateUpdate(parseUpdate(text))
+        try:
+            upd = translateUpdate(parseUpdate(text))
+        except RecursionError:
+            # rdflib's update grammar recurses once per `;`-separated operation: a request of a few hundred operations
+            # exhausts Python's stack in the PARSER (C04's domain, not the store's).  Such a request is executed
+            # piecewise at the store's own `\n;\n` separators — only when every piece is a well-formed request by itself
+            # (parsed before anything is executed), so nothing that a whole-text parse would reject is accepted.
+            pieces = text.split("\n;\n")
+            parsed = [translateUpdate(parseUpdate(x)) for x in pieces]
+            for one in parsed:
+                self._run_update(one)
+            return
+        self._run_update(upd)
+
+    def _run_update(self, upd):
         for u in upd.algebra:
             ctx = QueryContext(self.ds, initBindings={})
             ctx.prologue = u.prologue
